@@ -17,6 +17,18 @@ Targets (each regenerated on every run of the checks that use them; the output d
                                     -> lean/PygyroVerif/Generated/EvalSplineGen.lean     range`, `empty(n)` = arbitrary contents `U`,
         calls between the kernels; Props/C07Gen2.lean proves the generated functions equal Model/BSpline.lean)
 
+  pygyro/splines/cubic_uniform_spline_eval_funcs.py   (target cueval)
+        cu_find_span, cu_basis_funs, cu_basis_funs_1st_der, cu_eval_spline_1d_scalar
+                                    -> lean/PygyroVerif/Generated/CubicUniformGen.lean  (part 4 + every `int` is a Lean `Int`, `int(x)` of a
+        float = `pyInt x` = TRUNCATION TOWARD ZERO, tuple assignment / tuple returns; Props/C07Gen3.lean: generated = Model/CubicUniform.lean)
+  pygyro/advection/accelerated_advection_steps.py     (targets vpar | flux)
+        general_v_parallel_advection_eval_step
+                                    -> lean/PygyroVerif/Generated/VParGen.lean          (`for i, v in enumerate(a)`, two `while` loops with
+        fuel, `f_eq` and the function parameter `eval_spline_1d_scalar` as UNINTERPRETED pure functions; Props/C11Gen.lean: generated =
+        Model/VParAdv.lean `evalNode`, fuel and termination of the periodic mode)
+        flux_advection              -> lean/PygyroVerif/Generated/FluxGen.lean          (2-D / 3-D arrays `a[i, j]`, `a[i, j, k]` as curried
+        functions, `a[i, j] += v`, `len(coeffs)`; Props/C10Gen.lean: generated = Model/FluxAdv.lean `fluxAdvection` = Σ_k coeffs[k]·vals[i,j,k])
+
 Props/C20Gen.lean and Props/C02Gen.lean prove that the generated definitions equal the hand-written models the other
 theorems are about (so those theorems hold of what the source says *now*).  The translator REFUSES (exit status 3, no Lean
 file left behind) on any construct outside its subset (subtraction on naturals, float functions, unknown calls, other
@@ -192,9 +204,13 @@ class FuncTranslator:
             if type(e.ops[0]) not in ops:
                 self.refuse(e, 'comparison operator')
             rat = self.is_rat(e.left, types) or self.is_rat(e.comparators[0], types)
-            t = 'Rat' if rat else 'Nat'
+            t = 'Rat' if rat else self.int_kind(e, types)
             return '(%s %s %s)' % (self.expr(e.left, types, t), ops[type(e.ops[0])], self.expr(e.comparators[0], types, t))
         self.refuse(e, 'condition %s is outside the subset' % type(e).__name__)
+
+    def int_kind(self, e, types):
+        """the type at which a comparison between integers is made"""
+        return 'Nat'
 
     # ---- statements (continuation passing) --------------------------------------------------------------------
     def block(self, stmts, types, k_end, k_break, ind, fuel):
@@ -673,43 +689,130 @@ def translate_find_span(repo):
 # =====================================================================================================================
 # part 4: the general (non-uniform) spline kernels: float arrays that are written, `for ... in range`, calls between kernels
 
+ARR_TYPES = {'Nat → Rat': 1, 'Nat → Nat → Rat': 2, 'Nat → Nat → Nat → Rat': 3}
+ARR_OF_DIM = {v: k for k, v in ARR_TYPES.items()}
+ARR_ANN = {'float[:]': 1, 'float[:,:]': 2, 'float[:,:,:]': 3}
+IDX_NAMES = ('k_', 'l_', 'm_')
+
+
+def split_top(txt):
+    """split at the commas that are not inside brackets"""
+    out, depth, cur = [], 0, ''
+    for ch in txt:
+        if ch in '([':
+            depth += 1
+        elif ch in ')]':
+            depth -= 1
+        if ch == ',' and depth == 0:
+            out.append(cur.strip())
+            cur = ''
+        else:
+            cur += ch
+    if cur.strip():
+        out.append(cur.strip())
+    return out
+
+
 class ArrayFuncTranslator(FuncTranslator):
     """FuncTranslator + writes to float arrays (`a[i] = v` is a functional update of `Nat → Rat`), `for v in range(..)` (a
     structurally recursive function over the number of iterations left), local arrays `a = empty(n)` (contents = the parameter `U`,
     'whatever the memory holds'), float literals, unary minus and `-` on floats, calls of earlier kernels (as a statement or as
     `v = f(..)`; array arguments are passed by reference: written arrays are copied back from the callee's final state).
-    The outcome of a call carries the final record of locals: `.ret σ` (`σ.ret_` is the returned value, if any)."""
+    The outcome of a call carries the final record of locals: `.ret σ` (`σ.ret_` is the returned value, if any).
+
+    Further constructs (targets cueval / vpar / flux):
+      * 2-D / 3-D float arrays `float[:,:]`, `float[:,:,:]` = `Nat → Nat → Rat`, `Nat → Nat → Nat → Rat`, read and written with a full
+        index tuple `a[i, j]`; augmented assignment to an array element `a[i] += v` = `a[i] = a[i] + v`;
+      * `for i, v in enumerate(a)` over a 1-D float array (`len(a)` iterations, `v = a[i]` read at the start of each iteration);
+      * uninterpreted PURE float/int functions: a parameter with a pyccel function-type annotation whose array arguments are all
+        `Final`, or a module-level name in `externals` (a `@pure` function of another module): they are fields of the record of
+        locals and leading parameters of `run`; a call is an application;
+      * with `int_type='Int'` every `int` parameter is a Lean `Int`; `int(q)` of a float is `pyInt q` (truncation toward zero);
+        locals that receive such values are `Int`; an `Int` used as an array index or a loop bound is `Int.toNat`;
+      * tuple assignment `a, b = e1, e2` (simultaneous), tuple returns `return e1, e2` (fields `ret0_`, `ret1_`, types inferred when
+        there is no annotation) and `a, b = f(..)` for an earlier kernel `f` that returns a tuple."""
 
     DECORATORS = ('pure', 'stack_array')
 
-    def __init__(self, fname, namespace):
+    def __init__(self, fname, namespace, int_type='Nat', externals=None):
         super().__init__(fname, namespace, allow_sub=True)
         self.sigs = {}            # function name -> (list of (param, type), return type or None)
         self.final = set()
         self.ret_type = None
         self.all_loops = []
+        self.int_type = int_type
+        self.externals = dict(externals or {})   # module-level pure functions: name -> (argument types, return type)
+        self.ext = {}                            # the uninterpreted functions of the function being translated
+        self.int_builtin = False                 # is `int` the builtin in this module? (set by kernel_functions)
 
     # ---- typing -----------------------------------------------------------------------------------------------
+    def fun_annotation(self, a, ann):
+        """pyccel function type `(ret)(arg, ...)` of a parameter -> (argument types, return type); the function must be pure for the
+        translation as an uninterpreted function to be sound: every array argument `Final`, a scalar result"""
+        import re
+        m = re.match(r'^\((\w*)\)\((.*)\)$', ann)
+        if not m:
+            return None
+        base = {'int': self.int_type, 'float': 'Rat'}
+        if m.group(1) not in base:
+            self.refuse(a, 'function parameter %s must return int or float' % a.arg)
+        args = []
+        for t in split_top(m.group(2)):
+            if t in base:
+                args.append(base[t])
+            elif t == 'Final[float[:]]':
+                args.append('Nat → Rat')
+            else:
+                self.refuse(a, 'function parameter %s: argument type %s (only int, float, Final[float[:]])' % (a.arg, t))
+        return args, base[m.group(1)]
+
+    def lean_type(self, v, types):
+        if types[v] != 'ext':
+            return types[v]
+        args, ret = self.ext[v]
+        return ' → '.join(['(Nat → Rat) → Nat' if t == 'Nat → Rat' else t for t in args] + [ret])
+
+    def lean_default(self, v, types):
+        if types[v] == 'ext':
+            n = sum(2 if t == 'Nat → Rat' else 1 for t in self.ext[v][0])
+            return 'fun %s=> 0' % ('_ ' * n)
+        if types[v] in ARR_TYPES:
+            return 'fun %s=> 0' % ('_ ' * ARR_TYPES[types[v]])
+        return '0'
+
     def infer_types(self, fn):
-        types, params, self.final = {}, [], set()
+        types, params, self.final, self.ext = {}, [], set(), {}
         if fn.args.vararg or fn.args.kwarg or fn.args.kwonlyargs or fn.args.posonlyargs:
             self.refuse(fn, 'only plain positional parameters')
         for d in fn.decorator_list:
             name = d.id if isinstance(d, ast.Name) else (d.func.id if isinstance(d, ast.Call) and isinstance(d.func, ast.Name) else None)
             if name not in self.DECORATORS:
                 self.refuse(d, 'decorator outside the subset')
+        used = {n.func.id for n in ast.walk(fn) if isinstance(n, ast.Call) and isinstance(n.func, ast.Name)}
+        for name in self.externals:               # module-level pure functions the body calls: leading parameters
+            if name in used:
+                types[name] = 'ext'
+                self.ext[name] = self.externals[name]
+                params.append(name)
         for a in fn.args.args:
             ann = a.annotation.id if isinstance(a.annotation, ast.Name) else (
                 a.annotation.value if isinstance(a.annotation, ast.Constant) and isinstance(a.annotation.value, str) else None)
+            core = ann[6:-1] if isinstance(ann, str) and ann.startswith('Final[') and ann.endswith(']') else ann
+            if a.arg in types:
+                self.refuse(a, 'parameter %s has the name of a function the body calls' % a.arg)
             if ann == 'int':
-                types[a.arg] = 'Nat'
+                types[a.arg] = self.int_type
             elif ann == 'float':
                 types[a.arg] = 'Rat'
-            elif ann in ('Final[float[:]]', 'float[:]'):
-                types[a.arg] = 'Nat → Rat'
-                types[a.arg + '_len'] = 'Nat'
+            elif core in ARR_ANN:
+                types[a.arg] = ARR_OF_DIM[ARR_ANN[core]]
+                if ARR_ANN[core] == 1:
+                    types[a.arg + '_len'] = 'Nat'
                 if ann.startswith('Final'):
                     self.final.add(a.arg)
+            elif isinstance(ann, str) and self.fun_annotation(a, ann):
+                types[a.arg] = 'ext'
+                self.ext[a.arg] = self.fun_annotation(a, ann)
             else:
                 self.refuse(a, 'parameter %s: annotation must be int, float or a 1-D float array' % a.arg)
             params.append(a.arg)
@@ -717,12 +820,28 @@ class ArrayFuncTranslator(FuncTranslator):
         rann = None if r is None else (r.id if isinstance(r, ast.Name) else (r.value if isinstance(r, ast.Constant) else '?'))
         if rann not in (None, 'int', 'float'):
             self.refuse(fn, 'return annotation must be int or float')
-        self.ret_type = {None: None, 'int': 'Nat', 'float': 'Rat'}[rann]
+        self.ret_type = {None: None, 'int': self.int_type, 'float': 'Rat'}[rann]
         assigned, order = [], []
         nodes = [n for n in ast.walk(fn) if isinstance(n, (ast.Assign, ast.AugAssign, ast.For))]
         nodes.sort(key=lambda n: (n.lineno, n.col_offset))
+
+        def local(v, n):
+            if types.get(v) in ARR_TYPES:
+                self.refuse(n, 'array %s re-bound to a value' % v)
+            if v in params:
+                self.refuse(n, 'assignment to the parameter %s' % v)
+            types.setdefault(v, 'Nat')
+            order.append(v)
+
         for n in nodes:
             if isinstance(n, ast.For):
+                if self.is_enumerate(n):
+                    vi, vv = n.target.elts[0].id, n.target.elts[1].id
+                    if vi == vv or vi in params or vv in params or types.setdefault(vi, 'Nat') != 'Nat' \
+                            or types.setdefault(vv, 'Rat') != 'Rat':
+                        self.refuse(n, 'loop variables of enumerate: two fresh names, an integer and a float')
+                    order += [vi, vv]
+                    continue
                 if not isinstance(n.target, ast.Name):
                     self.refuse(n, 'the loop variable must be a plain name')
                 v = n.target.id
@@ -735,6 +854,21 @@ class ArrayFuncTranslator(FuncTranslator):
             tg = n.targets[0] if isinstance(n, ast.Assign) else n.target
             if isinstance(tg, ast.Subscript):
                 continue                                    # checked where the statement is translated
+            if isinstance(tg, ast.Tuple) and isinstance(n, ast.Assign) and all(isinstance(x, ast.Name) for x in tg.elts):
+                names = [x.id for x in tg.elts]
+                if len(set(names)) != len(names):
+                    self.refuse(n, 'the same name twice in a tuple target')
+                if isinstance(n.value, ast.Tuple) and len(n.value.elts) == len(names):
+                    vals = list(n.value.elts)
+                elif isinstance(n.value, ast.Call) and isinstance(n.value.func, ast.Name) and n.value.func.id in self.sigs \
+                        and isinstance(self.sigs[n.value.func.id][1], list) and len(self.sigs[n.value.func.id][1]) == len(names):
+                    vals = [('ret', t) for t in self.sigs[n.value.func.id][1]]
+                else:
+                    self.refuse(n, 'tuple assignment: only from a tuple of the same length or a kernel that returns one')
+                for v, val in zip(names, vals):
+                    local(v, n)
+                    assigned.append((v, val))
+                continue
             if not isinstance(tg, ast.Name):
                 self.refuse(n, 'only plain names and array elements may be assigned')
             v = tg.id
@@ -745,39 +879,66 @@ class ArrayFuncTranslator(FuncTranslator):
                 types[v + '_len'] = 'Nat'
                 order += [v, v + '_len']
                 continue
-            if types.get(v) == 'Nat → Rat':
-                self.refuse(n, 'array %s re-bound to a value' % v)
-            if v in params:
-                self.refuse(n, 'assignment to the parameter %s' % v)
-            types.setdefault(v, 'Nat')
-            assigned.append((v, n))
-            order.append(v)
+            local(v, n)
+            assigned.append((v, n.value))
         changed = True
         while changed:
             changed = False
-            for v, n in assigned:
-                if types[v] == 'Nat' and self.is_rat(n.value, types):
+            for v, val in assigned:
+                if isinstance(val, tuple):
+                    rat, integer = val[1] == 'Rat', val[1] == 'Int'
+                else:
+                    rat = self.is_rat(val, types)
+                    integer = not rat and self.is_int(val, types)
+                if types[v] in ('Nat', 'Int') and rat:
                     types[v] = 'Rat'
                     changed = True
+                elif types[v] == 'Nat' and integer:
+                    types[v] = 'Int'
+                    changed = True
         for n in nodes:
-            if isinstance(n, ast.For) and types[n.target.id] != 'Nat':
+            if isinstance(n, ast.For) and not self.is_enumerate(n) and types[n.target.id] != 'Nat':
                 self.refuse(n, 'loop variable %s also receives a float' % n.target.id)
+            if isinstance(n, ast.For) and self.is_enumerate(n) and types[n.target.elts[0].id] != 'Nat':
+                self.refuse(n, 'loop variable %s also receives a float' % n.target.elts[0].id)
         for v in list(types):
-            if v.endswith('_') or v in ('U', 'F', 'σ', 'τ'):
+            if v.endswith('_') or v in ('U', 'F', 'σ', 'τ', 'pyInt'):
                 self.refuse(fn, 'local name %s clashes with the names the translation uses' % v)
+        rets = [n for n in ast.walk(fn) if isinstance(n, ast.Return)]
+        if any(isinstance(n.value, ast.Tuple) for n in rets):
+            if rann is not None or not all(isinstance(n.value, ast.Tuple) and len(n.value.elts) == len(rets[0].value.elts) for n in rets):
+                self.refuse(fn, 'tuple returns: every return must give a tuple of the same length, without a return annotation')
+            self.ret_type = []
+            for k in range(len(rets[0].value.elts)):
+                comp = [n.value.elts[k] for n in rets]
+                if any(self.is_rat(c, types) for c in comp):
+                    self.ret_type.append('Rat')
+                elif self.int_type == 'Int' or any(self.is_int(c, types) for c in comp):
+                    self.ret_type.append('Int')
+                else:
+                    self.ret_type.append('Nat')
         params = [q for p_ in params for q in ([p_, p_ + '_len'] if types[p_] == 'Nat → Rat' else [p_])]
         seen, ordered = set(), []
         for v in params + order:
             if v not in seen:
                 seen.add(v)
                 ordered.append(v)
-        if self.ret_type:
+        if isinstance(self.ret_type, list):
+            for k, t in enumerate(self.ret_type):
+                types['ret%d_' % k] = t
+                ordered.append('ret%d_' % k)
+        elif self.ret_type:
             types['ret_'] = self.ret_type
             ordered.append('ret_')
         return params, ordered, types
 
     def is_empty_call(self, e):
         return isinstance(e, ast.Call) and isinstance(e.func, ast.Name) and e.func.id == 'empty'
+
+    def is_enumerate(self, n):
+        it = n.iter
+        return (isinstance(it, ast.Call) and isinstance(it.func, ast.Name) and it.func.id == 'enumerate' and isinstance(n.target, ast.Tuple)
+                and len(n.target.elts) == 2 and all(isinstance(x, ast.Name) for x in n.target.elts))
 
     def is_rat(self, e, types):
         """does the expression denote a float?  (does not look inside calls and index expressions)"""
@@ -786,10 +947,12 @@ class ArrayFuncTranslator(FuncTranslator):
         if isinstance(e, ast.Name):
             return types.get(e.id) == 'Rat'
         if isinstance(e, ast.Subscript):
-            return isinstance(e.value, ast.Name) and types.get(e.value.id) == 'Nat → Rat'
+            return isinstance(e.value, ast.Name) and types.get(e.value.id) in ARR_TYPES
         if isinstance(e, ast.Call):
             if isinstance(e.func, ast.Name) and e.func.id in ('min', 'max'):
                 return any(self.is_rat(a, types) for a in e.args)
+            if isinstance(e.func, ast.Name) and types.get(e.func.id) == 'ext':
+                return self.ext[e.func.id][1] == 'Rat'
             return isinstance(e.func, ast.Name) and self.sigs.get(e.func.id, (None, None))[1] == 'Rat'
         if isinstance(e, ast.BinOp):
             return isinstance(e.op, ast.Div) or self.is_rat(e.left, types) or self.is_rat(e.right, types)
@@ -797,8 +960,66 @@ class ArrayFuncTranslator(FuncTranslator):
             return self.is_rat(e.operand, types)
         return False
 
+    def is_int(self, e, types):
+        """does the expression denote a (possibly negative) integer that is translated as a Lean `Int`?"""
+        if self.is_rat(e, types):
+            return False
+        if isinstance(e, ast.Name):
+            return types.get(e.id) == 'Int'
+        if isinstance(e, ast.Call) and isinstance(e.func, ast.Name):
+            if e.func.id == 'int' and 'int' not in types:
+                return True
+            if e.func.id in ('min', 'max'):
+                return any(self.is_int(a, types) for a in e.args)
+            if types.get(e.func.id) == 'ext':
+                return self.ext[e.func.id][1] == 'Int'
+            return self.sigs.get(e.func.id, (None, None))[1] == 'Int'
+        if isinstance(e, ast.BinOp):
+            return self.is_int(e.left, types) or self.is_int(e.right, types)
+        if isinstance(e, ast.UnaryOp):
+            return self.is_int(e.operand, types)
+        return False
+
+    def int_kind(self, e, types):
+        return 'Int' if self.is_int(e.left, types) or self.is_int(e.comparators[0], types) else 'Nat'
+
     # ---- expressions ------------------------------------------------------------------------------------------
+    def expr_int(self, e, types):
+        """Lean text of an integer-valued expression at type `Int`"""
+        if self.is_rat(e, types):
+            self.refuse(e, 'float used where an integer is needed')
+        if isinstance(e, ast.Constant) and isinstance(e.value, int) and not isinstance(e.value, bool) and e.value >= 0:
+            return '(%d : Int)' % e.value
+        if isinstance(e, ast.Name) and types.get(e.id) == 'Int':
+            return 'σ.%s' % e.id
+        if isinstance(e, ast.Name) and types.get(e.id) == 'Nat':
+            return '(σ.%s : Int)' % e.id
+        if isinstance(e, ast.Call) and isinstance(e.func, ast.Name) and e.func.id == 'int' and 'int' not in types:
+            if not self.int_builtin:
+                self.refuse(e, '`int` is not the builtin here')
+            if len(e.args) != 1 or e.keywords or not self.is_rat(e.args[0], types):
+                self.refuse(e, 'int(x) with one float argument only')
+            return '(pyInt %s)' % self.expr(e.args[0], types, 'Rat')
+        if isinstance(e, ast.BinOp) and type(e.op) in (ast.Add, ast.Sub, ast.Mult):
+            op = {ast.Add: '+', ast.Sub: '-', ast.Mult: '*'}[type(e.op)]
+            return '(%s %s %s)' % (self.expr_int(e.left, types), op, self.expr_int(e.right, types))
+        if isinstance(e, ast.BinOp) and type(e.op) in (ast.FloorDiv, ast.Mod) and self.is_int(e, types):
+            self.refuse(e, '// or % on an integer that may be negative')
+        if isinstance(e, ast.UnaryOp) and isinstance(e.op, ast.USub):
+            return '(-%s)' % self.expr_int(e.operand, types)
+        if isinstance(e, ast.Call) and isinstance(e.func, ast.Name) and e.func.id in ('min', 'max') and len(e.args) == 2 and not e.keywords:
+            return '(%s %s %s)' % (e.func.id, self.expr_int(e.args[0], types), self.expr_int(e.args[1], types))
+        if self.is_int(e, types):
+            self.refuse(e, 'integer expression %s is outside the subset' % type(e).__name__)
+        return '((%s : Nat) : Int)' % self.expr(e, types, 'Nat')
+
     def expr(self, e, types, want):
+        if want == 'Int':
+            return self.expr_int(e, types)
+        if self.is_int(e, types):
+            if want == 'Rat':
+                return '((%s : Int) : Rat)' % self.expr_int(e, types)
+            return '(Int.toNat %s)' % self.expr_int(e, types)          # an index or a loop bound
         if isinstance(e, ast.Constant) and isinstance(e.value, float):
             import fractions
             import math
@@ -814,9 +1035,43 @@ class ArrayFuncTranslator(FuncTranslator):
             return '(-%s)' % self.expr(e.operand, types, 'Rat')
         if isinstance(e, ast.BinOp) and isinstance(e.op, ast.Sub) and want == 'Nat' and self.is_rat(e, types):
             self.refuse(e, 'float used where an integer is needed')
-        if isinstance(e, ast.Name) and types.get(e.id) == 'Nat → Rat':
+        if isinstance(e, ast.Name) and types.get(e.id) in ARR_TYPES:
             self.refuse(e, 'array %s used as a number' % e.id)
+        if isinstance(e, ast.Name) and types.get(e.id) == 'ext':
+            self.refuse(e, 'function %s used as a number' % e.id)
+        if isinstance(e, ast.Subscript) and isinstance(e.value, ast.Name) and ARR_TYPES.get(types.get(e.value.id), 0) >= 2:
+            if want != 'Rat':
+                self.refuse(e, 'array element used as an integer')
+            return '(σ.%s %s)' % (e.value.id, ' '.join(self.index(e, types)))
+        if isinstance(e, ast.Call) and isinstance(e.func, ast.Name) and types.get(e.func.id) == 'ext':
+            argt, ret = self.ext[e.func.id]
+            if e.keywords or len(e.args) != len(argt):
+                self.refuse(e, 'call of %s: positional arguments, as many as its type says' % e.func.id)
+            parts = []
+            for a, t in zip(e.args, argt):
+                if t == 'Nat → Rat':
+                    if not (isinstance(a, ast.Name) and types.get(a.id) == 'Nat → Rat'):
+                        self.refuse(e, 'an array argument must be the name of a 1-D array')
+                    parts.append('σ.%s σ.%s_len' % (a.id, a.id))
+                else:
+                    if t == 'Nat' and self.is_int(a, types):
+                        self.refuse(e, 'a possibly negative integer passed to a parameter translated as a natural number')
+                    parts.append(self.expr(a, types, t))
+            txt = '(σ.%s %s)' % (e.func.id, ' '.join(parts))
+            if ret == want:
+                return txt
+            if ret == 'Nat' and want == 'Rat':
+                return '(%s : Rat)' % txt
+            self.refuse(e, 'result of %s used at another type' % e.func.id)
         return super().expr(e, types, want)
+
+    def index(self, sub, types):
+        """the index expressions of `a[i, j(, k)]` on a 2-D / 3-D array (a full tuple of integers: no slices, no partial indexing)"""
+        dim = ARR_TYPES[types[sub.value.id]]
+        idx = list(sub.slice.elts) if isinstance(sub.slice, ast.Tuple) else [sub.slice]
+        if len(idx) != dim:
+            self.refuse(sub, '%d indices on the %d-dimensional array %s' % (len(idx), dim, sub.value.id))
+        return [self.expr(i, types, 'Nat') for i in idx]
 
     # ---- statements -------------------------------------------------------------------------------------------
     def call_stmt(self, s, c, target, types, rest, k_end, k_break, ind, fuel):
@@ -828,6 +1083,8 @@ class ArrayFuncTranslator(FuncTranslator):
             self.refuse(s, 'wrong number of arguments')
         args, back = [], []
         for (pn, pt, pfinal), a in zip(sig, c.args):
+            if pt == 'ext' or ARR_TYPES.get(pt, 1) != 1:
+                self.refuse(s, 'call of a kernel with a function or a multi-dimensional array parameter')
             if pt == 'Nat → Rat':
                 if not (isinstance(a, ast.Name) and types.get(a.id) == 'Nat → Rat'):
                     self.refuse(s, 'an array argument must be the name of an array')
@@ -839,6 +1096,8 @@ class ArrayFuncTranslator(FuncTranslator):
                     back.append((a.id, pn))
                 args.append('σ.%s σ.%s_len' % (a.id, a.id))
             else:
+                if pt == 'Nat' and self.is_int(a, types):
+                    self.refuse(s, 'a possibly negative integer passed to a parameter translated as a natural number')
                 args.append(self.expr(a, types, pt))
         # aliasing: a written array must not also be passed as another argument
         names = [a.id for a in c.args if isinstance(a, ast.Name) and types.get(a.id) == 'Nat → Rat']
@@ -846,9 +1105,16 @@ class ArrayFuncTranslator(FuncTranslator):
             if names.count(b) > 1:
                 self.refuse(s, 'array %s passed twice, once to a parameter that is written' % b)
         upd = ['%s := τ.%s' % (b, pn) for b, pn in back]
-        if target is not None:
-            if rty is None:
-                self.refuse(s, '%s returns nothing' % c.func.id)
+        if isinstance(target, list):
+            if not isinstance(rty, list) or len(rty) != len(target):
+                self.refuse(s, '%s does not return %d values' % (c.func.id, len(target)))
+            for k, (t, ty) in enumerate(zip(target, rty)):
+                if types.get(t) != ty:
+                    self.refuse(s, '%s receives a value of another type' % t)
+                upd.append('%s := τ.ret%d_' % (t, k))
+        elif target is not None:
+            if rty is None or isinstance(rty, list):
+                self.refuse(s, '%s does not return one value' % c.func.id)
             if types.get(target) != rty:
                 self.refuse(s, '%s receives a value of another type' % target)
             upd.append('%s := τ.ret_' % target)
@@ -868,6 +1134,19 @@ class ArrayFuncTranslator(FuncTranslator):
             return self.call_stmt(s, s.value, None, types, rest, k_end, k_break, ind, fuel)
         if isinstance(s, ast.Assign) and isinstance(s.targets[0], ast.Name) and is_known(s.value):
             return self.call_stmt(s, s.value, s.targets[0].id, types, rest, k_end, k_break, ind, fuel)
+        if isinstance(s, ast.Assign) and isinstance(s.targets[0], ast.Tuple) and is_known(s.value):
+            return self.call_stmt(s, s.value, [x.id for x in s.targets[0].elts], types, rest, k_end, k_break, ind, fuel)
+        if isinstance(s, ast.Assign) and isinstance(s.targets[0], ast.Tuple):
+            # `a, b = e1, e2`: every right-hand side is evaluated in the state before the statement (one structure update)
+            names, vals = [x.id for x in s.targets[0].elts], s.value.elts
+            for v, val in zip(names, vals):
+                if types.get(v) not in ('Nat', 'Int', 'Rat'):
+                    self.refuse(s, 'assignment to %s' % v)
+                if types[v] != 'Rat' and self.is_rat(val, types):
+                    self.refuse(s, 'float assigned to the integer %s' % v)
+            return '%slet σ : St := { σ with %s }\n%s' % (
+                pad, ', '.join('%s := %s' % (v, self.expr(val, types, types[v])) for v, val in zip(names, vals)),
+                self.block(rest, types, k_end, k_break, ind, fuel))
         if isinstance(s, ast.Assign) and isinstance(s.targets[0], ast.Name) and self.is_empty_call(s.value):
             if not self.numpy_empty:
                 self.refuse(s, '`empty` is not numpy.empty here')
@@ -879,16 +1158,31 @@ class ArrayFuncTranslator(FuncTranslator):
                 pad, v, v, self.expr(c.args[0], types, 'Nat'), self.block(rest, types, k_end, k_break, ind, fuel))
         if isinstance(s, ast.Assign) and isinstance(s.targets[0], ast.Subscript):
             tg = s.targets[0]
-            if not (isinstance(tg.value, ast.Name) and types.get(tg.value.id) == 'Nat → Rat'):
-                self.refuse(s, 'element assignment to something that is not a 1-D float array')
+            if not (isinstance(tg.value, ast.Name) and types.get(tg.value.id) in ARR_TYPES):
+                self.refuse(s, 'element assignment to something that is not a float array')
             if tg.value.id in self.final:
                 self.refuse(s, 'write to the Final array %s' % tg.value.id)
             a = tg.value.id
-            return '%slet σ : St := { σ with %s := fun k_ => if k_ = %s then %s else σ.%s k_ }\n%s' % (
-                pad, a, self.expr(tg.slice, types, 'Nat'), self.expr(s.value, types, 'Rat'), a,
+            if types[a] == 'Nat → Rat':
+                return '%slet σ : St := { σ with %s := fun k_ => if k_ = %s then %s else σ.%s k_ }\n%s' % (
+                    pad, a, self.expr(tg.slice, types, 'Nat'), self.expr(s.value, types, 'Rat'), a,
+                    self.block(rest, types, k_end, k_break, ind, fuel))
+            idx = self.index(tg, types)
+            ks = ' '.join(IDX_NAMES[:len(idx)])
+            return '%slet σ : St := { σ with %s := fun %s => if %s then %s else σ.%s %s }\n%s' % (
+                pad, a, ks, ' ∧ '.join('%s = %s' % (k, i) for k, i in zip(IDX_NAMES, idx)), self.expr(s.value, types, 'Rat'), a, ks,
                 self.block(rest, types, k_end, k_break, ind, fuel))
+        if isinstance(s, ast.AugAssign) and isinstance(s.target, ast.Subscript):
+            # `a[i] op= v` is `a[i] = a[i] op v` (the index expressions have no side effects in this subset)
+            import copy
+            load = copy.deepcopy(s.target)
+            load.ctx = ast.Load()
+            new = ast.Assign(targets=[s.target], value=ast.BinOp(left=load, op=s.op, right=s.value))
+            ast.copy_location(new, s)
+            ast.copy_location(new.value, s)
+            return self.block([new] + rest, types, k_end, k_break, ind, fuel)
         if isinstance(s, ast.AugAssign) and not isinstance(s.target, ast.Name):
-            self.refuse(s, 'augmented assignment to an array element')
+            self.refuse(s, 'augmented assignment to something that is not a name or an array element')
         if isinstance(s, ast.If) and any(
                 isinstance(n, (ast.For, ast.While)) or is_known(n) for t in rest for n in ast.walk(t)):
             # the statements after the `if` start loops or calls: do not copy them into both branches; the `if` yields the state
@@ -909,22 +1203,50 @@ class ArrayFuncTranslator(FuncTranslator):
                 return pad + self.wrap('.ret σ')
             if not self.ret_type:
                 self.refuse(s, 'return of a value from a function without a return annotation')
-            if self.ret_type == 'Nat' and self.is_rat(s.value, types):
+            if isinstance(self.ret_type, list):
+                for t, v in zip(self.ret_type, s.value.elts):
+                    if t != 'Rat' and self.is_rat(v, types):
+                        self.refuse(s, 'float returned as int')
+                return pad + self.wrap('.ret { σ with %s }' % ', '.join(
+                    'ret%d_ := %s' % (k, self.expr(v, types, t)) for k, (t, v) in enumerate(zip(self.ret_type, s.value.elts))))
+            if self.ret_type != 'Rat' and self.is_rat(s.value, types):
                 self.refuse(s, 'float returned as int')
+            if self.ret_type == 'Nat' and self.is_int(s.value, types):
+                self.refuse(s, 'a possibly negative integer returned from a function whose result is translated as a natural number')
             return pad + self.wrap('.ret { σ with ret_ := %s }' % self.expr(s.value, types, self.ret_type))
         if isinstance(s, ast.For):
             if s.orelse:
                 self.refuse(s, 'for-else')
             it = s.iter
-            if not (isinstance(it, ast.Call) and isinstance(it.func, ast.Name) and it.func.id == 'range'
-                    and not it.keywords and len(it.args) in (1, 2)):
-                self.refuse(s, 'only `for v in range(stop)` / `range(start, stop)`')
-            start = '(0 : Nat)' if len(it.args) == 1 else self.expr(it.args[0], types, 'Nat')
-            stop = self.expr(it.args[-1], types, 'Nat')
-            for a in it.args:
-                if self.is_rat(a, types):
-                    self.refuse(s, 'float in range()')
-            v = s.target.id
+            if self.is_enumerate(s):
+                if not (len(it.args) == 1 and not it.keywords and isinstance(it.args[0], ast.Name)
+                        and types.get(it.args[0].id) == 'Nat → Rat'):
+                    self.refuse(s, 'only `for i, v in enumerate(a)` over a 1-D float array')
+                arr, vi, vv = it.args[0].id, s.target.elts[0].id, s.target.elts[1].id
+                for n in ast.walk(s):
+                    tg = n.targets[0] if isinstance(n, ast.Assign) else (n.target if isinstance(n, ast.AugAssign) else None)
+                    if isinstance(tg, ast.Subscript) and isinstance(tg.value, ast.Name) and tg.value.id == arr:
+                        self.refuse(n, 'the array %s is written while it is iterated over' % arr)
+                    if isinstance(n, ast.Call) and is_known(n) and arr in [a.id for a in n.args if isinstance(a, ast.Name)]:
+                        self.refuse(n, 'the array %s is passed to a kernel while it is iterated over' % arr)
+                start, count = '(0 : Nat)', 'σ.%s_len' % arr
+                bind = '%s := i, %s := σ.%s i' % (vi, vv, arr)
+                doc = '`for %s, %s in %s:` — `n` iterations are left, `i` is the next value of `%s` and `%s` is element `i`' % (vi, vv, ast.unparse(it), vi, vv)
+            else:
+                if not (isinstance(it, ast.Call) and isinstance(it.func, ast.Name) and it.func.id == 'range'
+                        and not it.keywords and len(it.args) in (1, 2)):
+                    self.refuse(s, 'only `for v in range(stop)` / `range(start, stop)`')
+                start = '(0 : Nat)' if len(it.args) == 1 else self.expr(it.args[0], types, 'Nat')
+                stop = self.expr(it.args[-1], types, 'Nat')
+                for a in it.args:
+                    if self.is_rat(a, types):
+                        self.refuse(s, 'float in range()')
+                if len(it.args) == 2 and self.is_int(it.args[0], types):
+                    self.refuse(s, 'range() starting at a possibly negative integer')
+                v = s.target.id
+                count = '(%s - %s)' % (stop, start)
+                bind = '%s := i' % v
+                doc = '`for %s in %s:` — `n` iterations are left, `i` is the next value of `%s`' % (v, ast.unparse(it), v)
             name = 'loop%d' % (len(self.loops) + 1)
             self.loops.append(None)
             slot = len(self.loops) - 1
@@ -932,14 +1254,14 @@ class ArrayFuncTranslator(FuncTranslator):
             body = self.block(s.body, types, '%s U F n (i + 1) σ' % name, '.ok σ', 3, 'F')
             self.top = was_top
             self.loops[slot] = (
-                '/-- %s:%d  `for %s in %s:` — `n` iterations are left, `i` is the next value of `%s`; carried state: all locals -/\n'
+                '/-- %s:%d  %s; carried state: all locals -/\n'
                 'def %s (U : Nat → Rat) (F : Nat) : Nat → Nat → St → Res St\n'
                 '  | 0, _, σ => .ok σ\n'
                 '  | n+1, i, σ =>\n'
-                '      let σ : St := { σ with %s := i }\n%s\n' % (self.fname, s.lineno, v, ast.unparse(it), v, name, v, body))
+                '      let σ : St := { σ with %s }\n%s\n' % (self.fname, s.lineno, doc, name, bind, body))
             after = self.block(rest, types, k_end, k_break, ind + 1, fuel)
-            return '%smatch %s U F (%s - %s) %s σ with\n%s| .ok σ =>\n%s\n%s| .done o => %s' % (
-                pad, name, stop, start, start, pad, after, pad, self.wrap('o', paren=False))
+            return '%smatch %s U F %s %s σ with\n%s| .ok σ =>\n%s\n%s| .done o => %s' % (
+                pad, name, count, start, pad, after, pad, self.wrap('o', paren=False))
         if isinstance(s, ast.While):
             if s.orelse:
                 self.refuse(s, 'while-else')
@@ -963,9 +1285,9 @@ class ArrayFuncTranslator(FuncTranslator):
             self.refuse(s, 'assignment target outside the subset')
         if isinstance(s, (ast.Assign, ast.AugAssign)):
             v = s.targets[0].id if isinstance(s, ast.Assign) else s.target.id
-            if types.get(v) not in ('Nat', 'Rat'):
+            if types.get(v) not in ('Nat', 'Int', 'Rat'):
                 self.refuse(s, 'assignment to %s' % v)
-            if types[v] == 'Nat' and self.is_rat(s.value, types):
+            if types[v] != 'Rat' and self.is_rat(s.value, types):
                 self.refuse(s, 'float assigned to the integer %s' % v)
         if isinstance(s, ast.Raise) and s.exc is None:
             self.refuse(s, 'bare raise')
@@ -981,15 +1303,18 @@ class ArrayFuncTranslator(FuncTranslator):
             body = body.replace(old, new)
             self.loops = [t.replace(old, new) for t in self.loops]
         loops = self.loops[::-1]                           # inner loops are created after the loop that contains them
-        dflt = {'Nat → Rat': 'fun _ => 0'}
-        fields = '\n'.join('  %s : %s := %s' % (v, types[v], dflt.get(types[v], '0')) for v in order)
+        fields = '\n'.join('  %s : %s := %s' % (v, self.lean_type(v, types), self.lean_default(v, types)) for v in order)
         init = ', '.join('%s := %s' % (p, p) for p in params)
-        sig = ' '.join('(%s : %s)' % (p, types[p]) for p in params)
+        sig = ' '.join('(%s : %s)' % (p, self.lean_type(p, types)) for p in params)
         self.sigs[fn.name] = ([(a.arg, types[a.arg], a.arg in self.final) for a in fn.args.args], self.ret_type)
+        if isinstance(self.ret_type, list):
+            retdoc = '; `ret0_`, … are the returned values'
+        else:
+            retdoc = '; `ret_` is the returned value' if self.ret_type else ''
         return ('namespace %s_\n/-- all local variables of `%s` (%s:%d)%s -/\nstructure St where\n%s\n\n%s\n'
                 '/-- `%s(%s)`; `U` = contents of memory obtained with `empty`, `F` = fuel for every `while` -/\n'
                 'def run (U : Nat → Rat) (F : Nat) %s : Out St :=\n  let σ : St := { %s }\n%s\nend %s_\n'
-                % (fn.name, fn.name, self.fname, fn.lineno, '; `ret_` is the returned value' if self.ret_type else '', fields,
+                % (fn.name, fn.name, self.fname, fn.lineno, retdoc, fields,
                    '\n'.join(loops), fn.name, ', '.join(params), sig, init, body, fn.name))
 
 
@@ -1006,31 +1331,67 @@ SPLINE_TYPES = ('/-- outcome of a call: `return` / end of the body with the fina
                 'inductive Res (α : Type) where\n  | ok (s : α)\n  | done (o : Out α)\n\n')
 
 
-def spline_functions(repo, names):
-    """the source, the translator and the FunctionDef nodes of the requested kernels (in the order given: callees first)"""
-    src = open(os.path.join(repo, SPLINE_REL)).read()
-    tree = ast.parse(src)
-    tr = ArrayFuncTranslator(SPLINE_REL, '')
-    bound = []          # everything that binds the name `empty` anywhere in the module
+def module_bindings(tree, name):
+    """everything that binds `name` anywhere in the module: (node, alias or None)"""
+    bound = []
     for n in ast.walk(tree):
         if isinstance(n, (ast.Import, ast.ImportFrom)):
-            bound += [(n, a) for a in n.names if (a.asname or a.name.split('.')[0]) == 'empty']
-        elif isinstance(n, (ast.FunctionDef, ast.ClassDef)) and n.name == 'empty':
+            bound += [(n, a) for a in n.names if (a.asname or a.name.split('.')[0]) == name]
+        elif isinstance(n, (ast.FunctionDef, ast.ClassDef)) and n.name == name:
             bound.append((n, None))
-        elif isinstance(n, ast.Name) and n.id == 'empty' and isinstance(n.ctx, (ast.Store, ast.Del)):
+        elif isinstance(n, ast.Name) and n.id == name and isinstance(n.ctx, (ast.Store, ast.Del)):
             bound.append((n, None))
-        elif isinstance(n, ast.arg) and n.arg == 'empty':
+        elif isinstance(n, ast.arg) and n.arg == name:
             bound.append((n, None))
+    return bound
+
+
+def kernel_functions(repo, rel, names, int_type='Nat', pure_imports=()):
+    """the source, the translator and the FunctionDef nodes of the requested kernels of the module `rel` (in the order given: callees
+    first).  `pure_imports`: module-level names that must be bound exactly once, by a relative `from .. import`, to a `@pure` function
+    whose parameters and result are all `float`; calls of them are translated as applications of an uninterpreted function."""
+    src = open(os.path.join(repo, rel)).read()
+    tree = ast.parse(src)
+    externals = {}
+    for nm in pure_imports:
+        b = module_bindings(tree, nm)
+        if not (len(b) == 1 and isinstance(b[0][0], ast.ImportFrom) and b[0][0] in tree.body and b[0][0].level >= 1
+                and b[0][0].module and b[0][1].name == nm and b[0][1].asname is None):
+            raise Refuse(tree, '%s is not bound exactly once by a relative `from … import %s` at module level' % (nm, nm), rel)
+        base = os.path.dirname(rel)
+        for _ in range(b[0][0].level - 1):
+            base = os.path.dirname(base)
+        mrel = os.path.join(base, *b[0][0].module.split('.')) + '.py'
+        if not os.path.exists(os.path.join(repo, mrel)):
+            raise Refuse(b[0][0], 'module %s of %s not found' % (mrel, nm), rel)
+        mtree = ast.parse(open(os.path.join(repo, mrel)).read())
+        defs = [n for n in mtree.body if isinstance(n, ast.FunctionDef) and n.name == nm]
+        if len(defs) != 1 or len(module_bindings(mtree, nm)) != 1:
+            raise Refuse(mtree, '%s not defined exactly once' % nm, mrel)
+        d = defs[0]
+        ann = lambda x: x.value if isinstance(x, ast.Constant) else (x.id if isinstance(x, ast.Name) else None)  # noqa: E731
+        if d.args.vararg or d.args.kwarg or d.args.kwonlyargs or d.args.posonlyargs or d.args.defaults \
+                or [ann(a.annotation) for a in d.args.args] != ['float'] * len(d.args.args) or ann(d.returns) != 'float' \
+                or 'pure' not in [x.id for x in d.decorator_list if isinstance(x, ast.Name)]:
+            raise Refuse(d, '%s must be a @pure function of floats that returns a float' % nm, mrel)
+        externals[nm] = (['Rat'] * len(d.args.args), 'Rat')
+    tr = ArrayFuncTranslator(rel, '', int_type=int_type, externals=externals)
+    bound = module_bindings(tree, 'empty')          # everything that binds the name `empty` anywhere in the module
     tr.numpy_empty = (len(bound) == 1 and isinstance(bound[0][0], ast.ImportFrom) and bound[0][0].module == 'numpy'
                       and bound[0][0].level == 0 and bound[0][1].name == 'empty' and bound[0][0] in tree.body)
+    tr.int_builtin = not module_bindings(tree, 'int')
     fns = []
     for nm in names:
         f = [n for n in tree.body if isinstance(n, ast.FunctionDef) and n.name == nm]
-        if len(f) != 1:
-            raise Refuse(tree, '%s not found exactly once' % nm, SPLINE_REL)
+        if len(f) != 1 or len(module_bindings(tree, nm)) != 1:
+            raise Refuse(tree, '%s not found exactly once' % nm, rel)
         fns.append(f[0])
     sha = hashlib.sha256('\n'.join(ast.get_source_segment(src, f) or '' for f in fns).encode()).hexdigest()[:16]
     return tr, fns, sha
+
+
+def spline_functions(repo, names):
+    return kernel_functions(repo, SPLINE_REL, names)
 
 
 def translate_basis_funs(repo):
@@ -1054,12 +1415,66 @@ def translate_eval1d(repo):
     return head + '\n'.join(parts) + '\nend PygyroVerif.Gen.EvalSpline\n'
 
 
+ADV_REL = 'pygyro/advection/accelerated_advection_steps.py'
+ARRAY_SEMANTICS_ND = (
+    'A 2-D / 3-D float array is `Nat → Nat → Rat` / `Nat → Nat → Nat → Rat`, read and written with a full index tuple (`a[i, j] = v` is the\n'
+    'functional update at that one position; shapes, index bounds, negative indices and slices are NOT modelled); `a[i, j] += v` is\n'
+    '`a[i, j] = a[i, j] + v`; `len(a)` of a 1-D array is the parameter `a_len`.\n')
+
+
+def translate_flux(repo):
+    """pygyro/advection/accelerated_advection_steps.py: `flux_advection` (triple loop, `+=` on an element of a 2-D array)"""
+    tr, fns, sha = kernel_functions(repo, ADV_REL, ['flux_advection'])
+    body = tr.function(fns[0])
+    head = ('/-\nGENERATED by harness/translate_pure.py from %s, function flux_advection (sha256 of its source %s) — do not edit.\n%s%s-/\n'
+            'set_option linter.unusedVariables false\nnamespace PygyroVerif.Gen.Flux\n\n%s' % (ADV_REL, sha, SPLINE_SEMANTICS, ARRAY_SEMANTICS_ND, SPLINE_TYPES))
+    return head + body + '\nend PygyroVerif.Gen.Flux\n'
+
+
+CU_REL = 'pygyro/splines/cubic_uniform_spline_eval_funcs.py'
+INT_SEMANTICS = (
+    'In this file every Python `int` parameter is a Lean `Int` (the span is negative left of the domain) and so is every local that receives such a\n'
+    'value; loop variables of `range` stay naturals.  `int(q)` of a float is `pyInt q`, TRUNCATION TOWARD ZERO (`Int.tdiv q.num q.den`, what CPython\'s\n'
+    '`float.__int__` does; the C cast pyccel generates truncates too).  An `Int` used as an array index or a loop bound is `Int.toNat` (negative indices\n'
+    'are not modelled: the theorems state `3 ≤ span`).  `a, b = e1, e2` evaluates both right-hand sides in the state before the statement; a tuple\n'
+    'return fills the fields `ret0_`, `ret1_`.\n')
+PYINT_DEF = ('/-- Python\'s `int(x)` on a float: truncation toward zero -/\n'
+             'def pyInt (q : Rat) : Int := Int.tdiv q.num q.den\n\n')
+
+
+def translate_cueval(repo):
+    """pygyro/splines/cubic_uniform_spline_eval_funcs.py: `cu_find_span`, `cu_basis_funs`, `cu_basis_funs_1st_der`, `cu_eval_spline_1d_scalar`"""
+    names = ['cu_find_span', 'cu_basis_funs', 'cu_basis_funs_1st_der', 'cu_eval_spline_1d_scalar']
+    tr, fns, sha = kernel_functions(repo, CU_REL, names, int_type='Int')
+    parts = [tr.function(f) for f in fns]
+    head = ('/-\nGENERATED by harness/translate_pure.py from %s, functions %s\n(sha256 of the four sources %s) — do not edit.\n%s%s-/\n'
+            'set_option linter.unusedVariables false\nnamespace PygyroVerif.Gen.CubicUniform\n\n%s%s'
+            % (CU_REL, ', '.join(names), sha, SPLINE_SEMANTICS, INT_SEMANTICS, SPLINE_TYPES, PYINT_DEF))
+    return head + '\n'.join(parts) + '\nend PygyroVerif.Gen.CubicUniform\n'
+
+
+EXT_SEMANTICS = (
+    '`for i, v in enumerate(a)` over a 1-D float array makes `len(a)` iterations (evaluated once) and reads `v = a[i]` at the start of each one (the body\n'
+    'does not write `a`).  Calls of `f_eq` (a `@pure` function of floats imported from another module) and of the function parameter\n'
+    '`eval_spline_1d_scalar` (pyccel type: float result, every array argument `Final`) are applications of UNINTERPRETED total functions: they are\n'
+    'fields of the record of locals and leading / ordinary parameters of `run`; an array argument is passed as the pair (contents, length).\n')
+
+
+def translate_vpar(repo):
+    """pygyro/advection/accelerated_advection_steps.py: `general_v_parallel_advection_eval_step` (three boundary modes)"""
+    tr, fns, sha = kernel_functions(repo, ADV_REL, ['general_v_parallel_advection_eval_step'], pure_imports=('f_eq',))
+    body = tr.function(fns[0])
+    head = ('/-\nGENERATED by harness/translate_pure.py from %s, function general_v_parallel_advection_eval_step\n(sha256 of its source %s) — do not edit.\n%s%s-/\n'
+            'set_option linter.unusedVariables false\nnamespace PygyroVerif.Gen.VPar\n\n%s' % (ADV_REL, sha, SPLINE_SEMANTICS, EXT_SEMANTICS, SPLINE_TYPES))
+    return head + body + '\nend PygyroVerif.Gen.VPar\n'
+
+
 def main():
     ap = argparse.ArgumentParser()
     ap.add_argument('--repo', default=os.environ.get('PYGYRO_REPO', '/repo'))
     ap.add_argument('--out', default=DEFAULT_OUT)
     ap.add_argument('--quiet', action='store_true')
-    ap.add_argument('--only', choices=['procgrid', 'blocks', 'grid', 'findspan', 'basisfuns', 'eval1d'], help='translate one target only')
+    ap.add_argument('--only', choices=['procgrid', 'blocks', 'grid', 'findspan', 'basisfuns', 'eval1d', 'flux', 'cueval', 'vpar'], help='translate one target only')
     a = ap.parse_args()
     os.makedirs(a.out, exist_ok=True)
     status = 0
@@ -1068,7 +1483,10 @@ def main():
                            ('grid', 'GridGen.lean', lambda: translate_grid(a.repo)),
                            ('findspan', 'FindSpanGen.lean', lambda: translate_find_span(a.repo)),
                            ('basisfuns', 'BasisFunsGen.lean', lambda: translate_basis_funs(a.repo)),
-                           ('eval1d', 'EvalSplineGen.lean', lambda: translate_eval1d(a.repo))):
+                           ('eval1d', 'EvalSplineGen.lean', lambda: translate_eval1d(a.repo)),
+                           ('flux', 'FluxGen.lean', lambda: translate_flux(a.repo)),
+                           ('cueval', 'CubicUniformGen.lean', lambda: translate_cueval(a.repo)),
+                           ('vpar', 'VParGen.lean', lambda: translate_vpar(a.repo))):
         if a.only and a.only != key:
             continue
         path = os.path.join(a.out, fname)
